@@ -7,6 +7,7 @@ import (
 	"io"
 	"math/rand"
 	"strings"
+	"time"
 
 	goat "github.com/avos-io/goat"
 	"github.com/avos-io/goat/gen/goatorepo"
@@ -224,13 +225,14 @@ func c04Pure(r *Run) {
 			}
 			kvs[j] = &goatorepo.KeyValue{Key: k, Value: v}
 		}
+		inp := kvInput(kvs) // before the call: the code is handed the very slice
 		out := implToMetadata(kvs)
 		if out == "ERR" {
 			r.Count("tomd.err")
 		} else {
 			r.Count("tomd.ok")
 		}
-		r.Case("tomd", kvInput(kvs), out)
+		r.Case("tomd", inp, out)
 	}
 }
 
@@ -282,6 +284,9 @@ func planString(p hdrPlan, req metadata.MD, kind string) map[string]any {
 	return map[string]any{"kind": kind, "request_md": mdInput(req), "set_header": sets, "mode": p.Mode, "set_trailer": trs, "fail": p.Fail, "first_send_rejected_by_codec": p.Reject}
 }
 
+// c04Deadline: the next c04One call runs under a (distant) deadline.
+var c04Deadline bool
+
 func c04EndToEnd(r *Run) {
 	rng := r.Rand("c04.e2e")
 	n := r.Scale(160, 8000)
@@ -291,6 +296,15 @@ func c04EndToEnd(r *Run) {
 		for i := 0; i < n/2; i++ {
 			kind := []string{"unary", mBidi, mSrvStream, mCliStream}[i%4]
 			reqMD := genMD(rng, 8, true)
+			// keys of the "grpc-" namespace are metadata like any other (grpc-trace-bin and grpc-tags-bin are
+			// what tracing libraries attach), and some calls have a deadline as well
+			if rng.Intn(3) == 0 {
+				reqMD.Append("grpc-trace-bin", genBinValue(rng))
+				if rng.Intn(2) == 0 {
+					reqMD.Append("Grpc-X-Note", genTextValue(rng), genTextValue(rng))
+				}
+			}
+			c04Deadline = rng.Intn(3) == 0
 			plan := genPlan(rng)
 			r.Progress("e2e", planString(plan, reqMD, kind))
 			c04One(r, rig, crec, kind, reqMD, plan, serialise)
@@ -372,6 +386,12 @@ func c04One(r *Run, rig *Rig, crec *Recorder, kind string, reqMD metadata.MD, pl
 	})
 
 	ctx := metadata.NewOutgoingContext(context.Background(), reqMD)
+	if c04Deadline {
+		var cancel context.CancelFunc
+		ctx, cancel = context.WithTimeout(ctx, time.Hour)
+		defer cancel()
+		r.Count("e2e.with_deadline")
+	}
 	crec.Reset()
 	before := len(rig.Wire.Snapshot())
 	wantReq := withoutKeys(lowerMD(reqMD))
@@ -383,6 +403,9 @@ func c04One(r *Run, rig *Rig, crec *Recorder, kind string, reqMD metadata.MD, pl
 	r.Count("e2e." + kind)
 	r.Count("e2e.mode." + plan.Mode)
 	input := planString(plan, reqMD, kind)
+	if c04Deadline {
+		input["deadline"] = "1h"
+	}
 
 	var gotHdr, gotTr map[string][]string
 	haveClientHdr := false
